@@ -448,6 +448,11 @@ func runC02(r *run) {
 	// either side: every logger still delivers each record exactly once to each of its own destinations
 	c10WriterIsolation(r, &rng{s: r.seed*7907 + 2})
 	c02WriterOrder(r)
+	// calls that overlap on one logger, destinations that misbehave next to healthy ones, several custom severities
+	// registered for the error device
+	overlapDelivery(r.violate)
+	flakyNeighbour(r.violate)
+	customErrorDevices(r.violate)
 	// the same delivery oracles in go-test mode (the error dump after a record is active only there):
 	// the twin binary harness.test, oracle-only
 	if exe := os.Getenv("VERIF_HARNESS"); exe != "" {
